@@ -33,13 +33,20 @@ type l2expr struct {
 	lit     bool
 	nullish bool
 	numeric bool // needs parentheses before `.p`
+	// the expression is a property access, possibly in parentheses: calling it is a method call (`this` = base)
+	member bool
+	// known not to be null / undefined at compile time (`delete …`): esbuild folds `x ?? y`
+	notNullish bool
 }
+
+// tagged-template sites are numbered per generated case
+var l2site = 0
 
 var l2strings = []string{"", "", "a", "bc", "x1", "q"}
 var l2ops = []struct{ wire, js string }{{"o", "||="}, {"a", "&&="}, {"n", "??="}, {"p", "**="}}
 
 func l2paren(x l2expr) l2expr {
-	return l2expr{wire: "paren " + x.wire, js: "(" + x.js + ")", prec: 0, lit: x.lit, nullish: x.nullish}
+	return l2expr{wire: "paren " + x.wire, js: "(" + x.js + ")", prec: 0, lit: x.lit, nullish: x.nullish, member: x.member, notNullish: x.notNullish}
 }
 
 // something that may be followed by `.p`, `?.p`, `[k]`
@@ -60,6 +67,9 @@ func l2kind(x l2expr) string {
 	if x.lit {
 		return "literal"
 	}
+	if w == "this" {
+		return "this"
+	}
 	if strings.HasPrefix(w, "v") && !strings.Contains(w, " ") {
 		return "identifier"
 	}
@@ -67,7 +77,9 @@ func l2kind(x l2expr) string {
 }
 
 func genL2Leaf(r *gen.Rand, e *emitter) l2expr {
-	switch r.Intn(10) {
+	switch r.Intn(11) {
+	case 10:
+		return l2expr{wire: "this", js: "this"}
 	case 0:
 		return l2expr{wire: "undef", js: "void 0", prec: 2, lit: true, nullish: true}
 	case 1:
@@ -96,7 +108,44 @@ func genL2(r *gen.Rand, e *emitter, depth int) l2expr {
 	if depth <= 0 || r.Chance(1, 5) {
 		return genL2Leaf(r, e)
 	}
-	switch r.Intn(20) {
+	switch r.Intn(32) {
+	case 20, 21:
+		// o?.[k]
+		o := genL2(r, e, depth-1)
+		if o.nullish {
+			return o
+		}
+		o = l2base(o, false)
+		k := genL2(r, e, depth-1)
+		e.stat("capture:optional-index-base:" + l2kind(o))
+		return l2expr{wire: fmt.Sprintf("J %s %s", o.wire, k.wire), js: fmt.Sprintf("%s?.[%s]", o.js, k.js), chain: true, member: true}
+	case 22, 23:
+		return genL2ValueCall(r, e, depth)
+	case 24, 25, 26, 27, 28:
+		return genL2MemberCall(r, e, depth)
+	case 29, 30:
+		// delete o.p / o?.p / o[k] / o?.[k]
+		o := genL2(r, e, depth-1)
+		if o.nullish {
+			return o
+		}
+		o = l2base(o, false)
+		optLink := r.Chance(1, 2)
+		lw, ljs, kw := genL2Link(r, e, depth, optLink)
+		lc := "d"
+		if optLink {
+			lc = "q"
+		}
+		e.stat(fmt.Sprintf("delete:member:opt=%v:chain=%v", optLink, o.chain))
+		return l2expr{wire: fmt.Sprintf("D%s%s %s%s", lc, lw, o.wire, kw), js: "delete " + o.js + ljs, prec: 2, notNullish: true}
+	case 31:
+		// delete of a call
+		a := genL2(r, e, depth-1)
+		if a.member || a.lit || strings.HasPrefix(a.wire, "paren ") || !(strings.HasPrefix(a.wire, "C") || strings.HasPrefix(a.wire, "M") || strings.HasPrefix(a.wire, "c")) {
+			return a
+		}
+		e.stat(fmt.Sprintf("delete:value:chain=%v", a.chain))
+		return l2expr{wire: "DV " + a.wire, js: "delete " + a.js, prec: 2, notNullish: true}
 	case 0, 1:
 		a := genL2(r, e, depth-1)
 		f := r.Intn(3)
@@ -108,7 +157,7 @@ func genL2(r *gen.Rand, e *emitter, depth int) l2expr {
 		}
 		o = l2base(o, false)
 		p := r.Intn(4)
-		return l2expr{wire: fmt.Sprintf("d%d %s", p, o.wire), js: fmt.Sprintf("%s.p%d", o.js, p), chain: o.chain}
+		return l2expr{wire: fmt.Sprintf("d%d %s", p, o.wire), js: fmt.Sprintf("%s.p%d", o.js, p), chain: o.chain, member: true}
 	case 3, 4:
 		o := genL2(r, e, depth-1)
 		if o.nullish {
@@ -117,7 +166,7 @@ func genL2(r *gen.Rand, e *emitter, depth int) l2expr {
 		o = l2base(o, false)
 		p := r.Intn(4)
 		e.stat("capture:optional-chain-base:" + l2kind(o))
-		return l2expr{wire: fmt.Sprintf("o%d %s", p, o.wire), js: fmt.Sprintf("%s?.p%d", o.js, p), chain: true}
+		return l2expr{wire: fmt.Sprintf("o%d %s", p, o.wire), js: fmt.Sprintf("%s?.p%d", o.js, p), chain: true, member: true}
 	case 5, 6:
 		o := genL2(r, e, depth-1)
 		if o.nullish {
@@ -128,7 +177,7 @@ func genL2(r *gen.Rand, e *emitter, depth int) l2expr {
 		if o.chain {
 			e.stat("index-inside-optional-chain")
 		}
-		return l2expr{wire: fmt.Sprintf("I %s %s", o.wire, k.wire), js: fmt.Sprintf("%s[%s]", o.js, k.js), chain: o.chain}
+		return l2expr{wire: fmt.Sprintf("I %s %s", o.wire, k.wire), js: fmt.Sprintf("%s[%s]", o.js, k.js), chain: o.chain, member: true}
 	case 7:
 		a := genL2(r, e, depth-1)
 		if a.prec == 2 {
@@ -138,7 +187,7 @@ func genL2(r *gen.Rand, e *emitter, depth int) l2expr {
 	case 8, 9:
 		a := genL2(r, e, depth-1)
 		b := genL2(r, e, depth-1)
-		if a.lit {
+		if a.lit || a.notNullish {
 			return b // `literal ?? x` is folded at compile time
 		}
 		if a.prec >= 2 {
@@ -212,21 +261,150 @@ func genL2(r *gen.Rand, e *emitter, depth int) l2expr {
 	}
 }
 
+// a property link: wire code, JavaScript text, and the wire text of the key (" K" for an index link)
+func genL2Link(r *gen.Rand, e *emitter, depth int, optLink bool) (string, string, string) {
+	if r.Chance(1, 2) {
+		p := r.Intn(4)
+		if optLink {
+			return fmt.Sprintf("d%d", p), fmt.Sprintf("?.p%d", p), ""
+		}
+		return fmt.Sprintf("d%d", p), fmt.Sprintf(".p%d", p), ""
+	}
+	k := genL2(r, e, depth-1)
+	if optLink {
+		return "i", "?.[" + k.js + "]", " " + k.wire
+	}
+	return "i", "[" + k.js + "]", " " + k.wire
+}
+
+// 0..2 arguments: wire text (each preceded by a space) and JavaScript texts
+func genL2Args(r *gen.Rand, e *emitter, depth int) (int, string, []string) {
+	n := r.Intn(3)
+	wire := ""
+	js := []string{}
+	for i := 0; i < n; i++ {
+		a := genL2(r, e, depth-1)
+		if a.prec >= 3 {
+			// an assignment is fine as an argument, but keep templates readable
+			a = l2paren(a)
+		}
+		wire += " " + a.wire
+		js = append(js, a.js)
+	}
+	return n, wire, js
+}
+
+// the text of a tagged template with the given substitutions; returns the wire spec ":site,s0,s1…" and the JavaScript
+func genL2Tpl(r *gen.Rand, subs []string) (string, string) {
+	site := l2site
+	l2site++
+	strs := []string{fmt.Sprintf("t%d", site)}
+	js := "`" + strs[0]
+	for _, sub := range subs {
+		tail := r.Pick(l2strings)
+		strs = append(strs, tail)
+		js += "${" + sub + "}" + tail
+	}
+	return fmt.Sprintf(":%d,%s", site, strings.Join(strs, ",")), js + "`"
+}
+
+// f(a, b) / f?.(a, b) / f`…` with a callee that is not a property access
+func genL2ValueCall(r *gen.Rand, e *emitter, depth int) l2expr {
+	f := genL2(r, e, depth-1)
+	if f.member || f.lit || f.nullish {
+		return f
+	}
+	if f.prec > 0 {
+		f = l2paren(f)
+	}
+	n, aw, ajs := genL2Args(r, e, depth)
+	switch r.Intn(4) {
+	case 0:
+		e.stat(fmt.Sprintf("call:value:optional:args=%d", n))
+		e.stat("capture:optional-call-target:" + l2kind(f))
+		return l2expr{wire: fmt.Sprintf("Co%d %s%s", n, f.wire, aw), js: f.js + "?.(" + strings.Join(ajs, ", ") + ")", chain: true}
+	case 1:
+		if f.chain {
+			f = l2paren(f)
+		}
+		spec, tjs := genL2Tpl(r, ajs)
+		e.stat(fmt.Sprintf("tag:value:subs=%d", n))
+		return l2expr{wire: fmt.Sprintf("Cn%d%s %s%s", n, spec, f.wire, aw), js: f.js + tjs}
+	default:
+		e.stat(fmt.Sprintf("call:value:plain:args=%d:chain=%v", n, f.chain))
+		return l2expr{wire: fmt.Sprintf("Cn%d %s%s", n, f.wire, aw), js: f.js + "(" + strings.Join(ajs, ", ") + ")", chain: f.chain}
+	}
+}
+
+// calls and tagged templates whose callee is a property access: o.p(a) o?.p(a) o[k](a) o?.[k](a), the same with
+// `?.(`, and the parenthesised forms (o?.p)(a) (o?.p.q)`x` whose parentheses end the chain
+func genL2MemberCall(r *gen.Rand, e *emitter, depth int) l2expr {
+	o := genL2(r, e, depth-1)
+	if o.nullish {
+		return o
+	}
+	o = l2base(o, false)
+	optLink := r.Chance(1, 2)
+	lw, ljs, kw := genL2Link(r, e, depth, optLink)
+	lc := "d"
+	if optLink {
+		lc = "q"
+	}
+	n, aw, ajs := genL2Args(r, e, depth)
+	inChain := o.chain || optLink
+	kind := l2kind(o)
+	links := 1 + strings.Count(o.js, "?.")
+	mode := r.Intn(5)
+	tag := false
+	switch mode {
+	case 0, 1: // plain call, continues the chain
+		e.stat(fmt.Sprintf("call:member:plain:opt-link=%v:link=%s:args=%d", optLink, lw[:1], n))
+		return l2expr{wire: fmt.Sprintf("Mp%s%d%s %s%s%s", lc, n, lw, o.wire, kw, aw), js: o.js + ljs + "(" + strings.Join(ajs, ", ") + ")", chain: inChain}
+	case 2: // optional call
+		e.stat(fmt.Sprintf("call:member:optional:opt-link=%v:link=%s:base-in-chain=%v:this=%s", optLink, lw[:1], o.chain, kind))
+		return l2expr{wire: fmt.Sprintf("Mo%s%d%s %s%s%s", lc, n, lw, o.wire, kw, aw), js: o.js + ljs + "?.(" + strings.Join(ajs, ", ") + ")", chain: true}
+	case 3:
+		tag = true
+	}
+	if !inChain {
+		// without an optional link inside, the parentheses change nothing: (o.p)(a) is o.p(a)
+		if tag {
+			spec, tjs := genL2Tpl(r, ajs)
+			e.stat(fmt.Sprintf("tag:member:plain:link=%s:subs=%d", lw[:1], n))
+			return l2expr{wire: fmt.Sprintf("Mp%s%d%s%s %s%s%s", lc, n, lw, spec, o.wire, kw, aw), js: o.js + ljs + tjs}
+		}
+		e.stat("call:member:parenthesised-without-chain")
+		return l2expr{wire: fmt.Sprintf("Mp%s%d%s %s%s%s", lc, n, lw, o.wire, kw, aw), js: "(" + o.js + ljs + ")(" + strings.Join(ajs, ", ") + ")"}
+	}
+	if links > 3 {
+		links = 3
+	}
+	if tag {
+		spec, tjs := genL2Tpl(r, ajs)
+		e.stat(fmt.Sprintf("tag:member:parenthesised:opt-link=%v:link=%s:links=%d:this=%s", optLink, lw[:1], links, kind))
+		return l2expr{wire: fmt.Sprintf("Mr%s%d%s%s %s%s%s", lc, n, lw, spec, o.wire, kw, aw), js: "(" + o.js + ljs + ")" + tjs}
+	}
+	e.stat(fmt.Sprintf("call:member:parenthesised:opt-link=%v:link=%s:links=%d:this=%s", optLink, lw[:1], links, kind))
+	return l2expr{wire: fmt.Sprintf("Mr%s%d%s %s%s%s", lc, n, lw, o.wire, kw, aw), js: "(" + o.js + ljs + ")(" + strings.Join(ajs, ", ") + ")"}
+}
+
 type sexp2 struct {
 	ast   *js_ast.AST
-	temps map[string]int
+	temps map[uint32]int
 }
 
 func (p *sexp2) name(e *js_ast.EIdentifier) string {
 	return p.ast.Symbols[e.Ref.InnerIndex].OriginalName
 }
 
-func (p *sexp2) temp(name string) int {
-	if i, ok := p.temps[name]; ok {
+// temporaries are told apart by their symbol (a function-level `_a` and a top-level `_a` are different)
+func (p *sexp2) temp(e js_ast.Expr) int {
+	ref := e.Data.(*js_ast.EIdentifier).Ref.InnerIndex
+	if i, ok := p.temps[ref]; ok {
 		return i
 	}
 	i := len(p.temps)
-	p.temps[name] = i
+	p.temps[ref] = i
 	return i
 }
 
@@ -243,10 +421,23 @@ func (p *sexp2) isTemp(e js_ast.Expr) (string, bool) {
 func (p *sexp2) expr(e js_ast.Expr) string {
 	switch x := e.Data.(type) {
 	case *js_ast.EIdentifier:
-		if n, ok := p.isTemp(e); ok {
-			return fmt.Sprintf("(tmp %d)", p.temp(n))
+		if _, ok := p.isTemp(e); ok {
+			return fmt.Sprintf("(tmp %d)", p.temp(e))
 		}
 		return "(id " + p.name(x) + ")"
+	case *js_ast.EThis:
+		return "this"
+	case *js_ast.EBoolean:
+		if x.Value {
+			return "true"
+		}
+		return "false"
+	case *js_ast.EArray:
+		items := []string{}
+		for _, it := range x.Items {
+			items = append(items, p.expr(it))
+		}
+		return "(array " + strings.Join(items, " ") + ")"
 	case *js_ast.EUndefined:
 		return "undef"
 	case *js_ast.ENull:
@@ -279,6 +470,9 @@ func (p *sexp2) expr(e js_ast.Expr) string {
 		if isPow {
 			return "(pow " + strings.Join(args, " ") + ")"
 		}
+		if len(args) == 0 {
+			return "(call " + target + ")"
+		}
 		return "(call " + target + " " + strings.Join(args, " ") + ")"
 	case *js_ast.EDot:
 		if x.OptionalChain != js_ast.OptionalChainNone {
@@ -293,8 +487,8 @@ func (p *sexp2) expr(e js_ast.Expr) string {
 	case *js_ast.EBinary:
 		switch x.Op {
 		case js_ast.BinOpAssign:
-			if n, ok := p.isTemp(x.Left); ok {
-				i := p.temp(n)
+			if _, ok := p.isTemp(x.Left); ok {
+				i := p.temp(x.Left)
 				return fmt.Sprintf("(set %d %s)", i, p.expr(x.Right))
 			}
 			l := p.expr(x.Left)
@@ -324,6 +518,9 @@ func (p *sexp2) expr(e js_ast.Expr) string {
 		if x.Op == js_ast.UnOpVoid {
 			return "undef"
 		}
+		if x.Op == js_ast.UnOpDelete {
+			return "(delete " + p.expr(x.Value) + ")"
+		}
 	}
 	return fmt.Sprintf("(OTHER %T)", e.Data)
 }
@@ -337,9 +534,17 @@ func lower2Real(src string) string {
 		if !ok || log.HasErrors() {
 			return "PARSE-ERROR"
 		}
-		p := &sexp2{ast: &tree, temps: map[string]int{}}
+		p := &sexp2{ast: &tree, temps: map[uint32]int{}}
 		for _, part := range tree.Parts {
+			stmts := []js_ast.Stmt{}
 			for _, st := range part.Stmts {
+				if fn, ok := st.Data.(*js_ast.SFunction); ok {
+					stmts = append(stmts, fn.Fn.Body.Block.Stmts...)
+				} else {
+					stmts = append(stmts, st)
+				}
+			}
+			for _, st := range stmts {
 				if se, ok := st.Data.(*js_ast.SExpr); ok {
 					if bin, ok := se.Value.Data.(*js_ast.EBinary); ok && bin.Op == js_ast.BinOpAssign {
 						return p.expr(bin.Right)
@@ -354,6 +559,7 @@ func lower2Real(src string) string {
 func init() {
 	kernels["lower2"] = func(r *gen.Rand, e *emitter, tier string) {
 		for !e.full() {
+			l2site = 0
 			x := genL2(r, e, 1+r.Intn(6))
 			if r.Chance(1, 40) {
 				// malformed wire text: a proper prefix of a prefix-form term, a term with a trailing token,
@@ -373,8 +579,8 @@ func init() {
 				e.emit("lower2\t"+strings.Join(toks, " "), "bad-op")
 				continue
 			}
-			out := lower2Real("r = " + x.js + ";\n")
-			for _, key := range []string{"(or ", "(and ", "(pow ", "concat", "(eqnull ", "(nenull ", "(set ", "(idx "} {
+			out := lower2Real("function once() { r = " + x.js + ";\n}\n")
+			for _, key := range []string{"(or ", "(and ", "(pow ", "concat", "(eqnull ", "(nenull ", "(set ", "(idx ", "call) ", "(delete ", "__template", "true "} {
 				if strings.Contains(out, key) {
 					e.stat("out:" + strings.Trim(key, "( "))
 				}
